@@ -254,23 +254,24 @@ impl SlabRouter {
             return Err(SlabRouterError::NotFound(key.to_string()));
         }
 
-        match Self::classify_key(key) {
+        // The removal itself decides the result: of several concurrent deletes
+        // of one key only the one that removed it reports success.
+        let removed = match Self::classify_key(key) {
             KeyClass::Embedding => {
                 if let Some(entity_id) = self.index.get(key) {
                     self.embeddings.delete(entity_id);
                 }
-                self.index.remove(key);
-                self.metadata.delete(key);
-                Ok(())
+                let in_index = self.index.remove(key).is_some();
+                let in_metadata = self.metadata.delete(key).is_some();
+                in_index || in_metadata
             },
-            KeyClass::Cache => {
-                self.cache.delete(key);
-                Ok(())
-            },
-            _ => {
-                self.metadata.delete(key);
-                Ok(())
-            },
+            KeyClass::Cache => self.cache.delete(key),
+            _ => self.metadata.delete(key).is_some(),
+        };
+        if removed {
+            Ok(())
+        } else {
+            Err(SlabRouterError::NotFound(key.to_string()))
         }
     }
 
